@@ -288,4 +288,87 @@ theorem decode_written_valid (p : Param) (d : PVal) (hv : dfltValid p.ty d = tru
             | cons a r => simp
           exact decodeArray_val t _ hne x hx
 
+/-! ### several parameters -/
+
+theorem add_ne_self (st : Store) (k : Key) (ws : List Wire) (hne : ws ≠ []) : st.add k ws ≠ st := by
+  intro h
+  have := get_add_same st k ws
+  rw [h] at this
+  cases hg : st.get k with
+  | none => simp [hg] at this
+  | some l =>
+    simp [hg] at this
+    exact hne this
+
+theorem paramStep_congr (skip : Bool) (p : Param) (st st' : Store) (h : st.get p.key = st'.get p.key) :
+    (paramStep skip p st').2 = (paramStep skip p st).2 ∧
+    ((paramStep skip p st).1 = st → (paramStep skip p st').1 = st') := by
+  unfold paramStep
+  rw [← h]
+  cases decode p (st.get p.key) with
+  | err => simp
+  | val => simp
+  | nil found =>
+    simp only
+    cases (if skip = true then none else p.dflt) with
+    | none => simp
+    | some d =>
+      simp only [true_and]
+      unfold writeDefault
+      cases he : encodeDefault p d with
+      | nil => simp
+      | cons w r => intro hh; exact absurd hh (add_ne_self st p.key (w :: r) (by simp))
+
+theorem regular_congr (skip : Bool) (p : Param) (st st' : Store) (h : st.get p.key = st'.get p.key) :
+    Regular skip p st' = Regular skip p st := by
+  unfold Regular EmptyPresent SprintArrayDefault
+  rw [h]
+
+theorem paramStep_other (skip : Bool) (p : Param) (st : Store) (k : Key) (hk : k ≠ p.key) :
+    (paramStep skip p st).1.get k = st.get k := by
+  unfold paramStep
+  cases decode p (st.get p.key) with
+  | err => rfl
+  | val => rfl
+  | nil found =>
+    simp only
+    cases hd : (if skip = true then none else p.dflt) with
+    | none => rfl
+    | some d =>
+      simp only [writeDefault]
+      cases he : encodeDefault p d with
+      | nil => rfl
+      | cons w r => exact get_add_other st p.key k (w :: r) hk
+
+theorem paramsPhase_other (skip multi : Bool) (k : Key) : ∀ (ps : List Param) (st : Store),
+    (∀ p ∈ ps, k ≠ p.key) → (paramsPhase skip multi ps st).1.get k = st.get k
+  | [], _, _ => rfl
+  | p :: ps, st, h => by
+    unfold paramsPhase
+    simp only
+    split
+    · exact paramStep_other skip p st k (h p (by simp))
+    · simp only
+      rw [paramsPhase_other skip multi k ps _ (fun q hq => h q (by simp [hq]))]
+      exact paramStep_other skip p st k (h p (by simp))
+
+theorem paramsPhase_cons (skip multi : Bool) (p : Param) (ps : List Param) (st : Store) :
+    paramsPhase skip multi (p :: ps) st =
+      (if !(paramStep skip p st).2 && !multi then ((paramStep skip p st).1, false)
+       else ((paramsPhase skip multi ps (paramStep skip p st).1).1,
+             (paramStep skip p st).2 && (paramsPhase skip multi ps (paramStep skip p st).1).2)) := by
+  rw [paramsPhase]
+
+theorem paramsPhase_ok_cons (skip multi : Bool) (p : Param) (ps : List Param) (st : Store)
+    (h : (paramsPhase skip multi (p :: ps) st).2 = true) :
+    (paramStep skip p st).2 = true ∧ (paramsPhase skip multi ps (paramStep skip p st).1).2 = true ∧
+    (paramsPhase skip multi (p :: ps) st).1 = (paramsPhase skip multi ps (paramStep skip p st).1).1 := by
+  rw [paramsPhase_cons] at h ⊢
+  split at h
+  · simp at h
+  · simp only [Bool.and_eq_true] at h
+    rename_i hc
+    simp only [hc, Bool.false_eq_true, ↓reduceIte]
+    exact ⟨h.1, h.2, trivial⟩
+
 end KinModel.C13.Params
